@@ -111,6 +111,7 @@ fn main() {
                 "seq-vs-par-mix-c05" => replay_text(&checks::c08::SeqVsPar { prop: "C05", name: "seq-vs-par-mix-c05", mix: true }, &text),
                 "seq-vs-par-mix-c06" => replay_text(&checks::c08::SeqVsPar { prop: "C06", name: "seq-vs-par-mix-c06", mix: true }, &text),
                 "generators" => replay_text(&checks::c08::Generators, &text),
+                "history-independence" => replay_text(&checks::c08::HistoryIndependence, &text),
                 "evaluator-identifiers" => replay_text(&checks::tworld::EvalIds, &text),
                 "individual-histories" => replay_text(&checks::indiv::IndividualHistories, &text),
                 "prepared-reactions" => replay_text(&checks::prepared::Reactions, &text),
